@@ -20,7 +20,7 @@ use rayon::prelude::*;
 mod ticks;
 
 /// Quick tier: slot-distance bound of the exhaustive "near pairs" family over `U_A` level 0.
-const QUICK_D: u32 = 3;
+const QUICK_D: u32 = 2;
 
 #[derive(Default, Clone)]
 struct Acc {
@@ -138,7 +138,7 @@ fn eval_into(acc: &mut Acc, uni: &Uni, pre: &[Pre], ai: usize, bi: usize, d: u32
                 }
                 vkey = "exact".into();
             }
-            Verdict::Typed(v) => {
+            Verdict::Typed(v, _) => {
                 acc.typed.add(v, case);
                 for i in 0..flag::COUNT {
                     if flags & (1 << i) != 0 {
@@ -246,7 +246,7 @@ fn case_detail(uni: &Uni, c: &CaseId) -> Value {
     let ev = eval_pair(&uni.u, a, &real_a, b, &real_b, &root_b);
     let (outcome, got) = match &ev.verdict {
         Verdict::Exact => ("Ok: exactly b".to_string(), Value::Null),
-        Verdict::Typed(v) => (format!("Err(TickPatchError::{v})"), Value::Null),
+        Verdict::Typed(v, _) => (format!("Err(TickPatchError::{v})"), Value::Null),
         Verdict::Bad(s, _) => (
             format!("VIOLATION {}", s.join(" | ")),
             match &ev.result {
@@ -447,7 +447,6 @@ fn main() {
             rate = acc.evals as f64 / wall;
         }
         let label = if restricted {
-            r.not_exhaustive();
             r.note(
                 "quick_family:U_A0",
                 json!({"what": format!("all ordered pairs at slot distance <= {QUICK_D} over all {} states, plus all ordered pairs of the sub-universe 'n0 has type t0 and no attachment' ({} states); the thorough tier evaluates all {} ordered pairs", uni.states.len(), uni.states.iter().filter(|s| quick_core(s)).count(), uni.states.len()*uni.states.len())}),
@@ -509,7 +508,7 @@ fn main() {
     }
 
     // ---- phase 3: patches of real engine ticks ------------------------------------------------
-    ticks::run(&r);
+    ticks::run(&r, &mut t.viol_detail);
 
     // ---- evidence -----------------------------------------------------------------------------
     let acc = &t.acc;
